@@ -56,6 +56,7 @@ type OffsetResponse struct {
 }
 
 func (r *OffsetResponse) decode(pd packetDecoder, version int16) (err error) {
+	r.Version = version
 	if version >= 2 {
 		r.ThrottleTimeMs, err = pd.getInt32()
 		if err != nil {
